@@ -13,7 +13,10 @@ either a Python `str` (fully known) or a `SymStr`: a sequence of pieces
     ("esc", a, b)      re.escape(X[a : L-b])
     ("head",) ("tail",) the first / the last character of X (from `m[:1]`, `m[0]`, `m[-1:]`, `m[-1]`; only comparable with literals)
 
-Integers are Python ints or `SymInt(c, k)` = c + k*L.  Every operation is either computed exactly on this representation or raises
+Repo classes are interpreted as far as a converter needs them: `Cls(...)` builds a `Record` (NamedTuple / dataclass fields in
+declaration order with defaults, or whatever a plain `__init__` assigns to self), `obj.field`, properties, bound / class / static methods,
+class constants, tuple unpacking and indexing of NamedTuples; bools are ints wherever Python takes them as ints (slice bounds, indices,
+arithmetic).  Integers are Python ints or `SymInt(c, k)` = c + k*L.  Every operation is either computed exactly on this representation or raises
 `Unknown` (the domain cannot express the result - e.g. `m.strip('*')` when it is not known whether X starts with '*').  With X
 instantiated by a concrete text the same evaluator degenerates to constant folding, which is how counterexamples are produced.
 """
@@ -25,7 +28,7 @@ import re
 import string as _string
 from dataclasses import dataclass
 
-from core.loader import FuncInfo, ModuleInfo, Repo, norm
+from core.loader import ClassInfo, FuncInfo, ModuleInfo, Repo, norm
 
 LMIN = 1  # minimal length of the opaque text X
 
@@ -215,8 +218,10 @@ def _pos(v, total, node, default):
     """Slice bound -> ("s", n) from the start | ("e", n) from the end."""
     if v is None:
         return default
-    if isinstance(v, bool) or not isinstance(v, (int, SymInt)):
+    if not isinstance(v, (int, SymInt)):
         raise Unknown(node, f"slice bound {v!r}")
+    if isinstance(v, bool):
+        v = int(v)  # bool is an int: s[True:] is s[1:]
     if isinstance(v, int):
         return ("s", v) if v >= 0 else ("e", -v)
     if isinstance(total, SymInt) and v.k == total.k:
@@ -434,6 +439,30 @@ class Closure:
     fi: FuncInfo
 
 
+@dataclass(frozen=True)
+class ClassRef:
+    ci: ClassInfo
+
+
+@dataclass(eq=False)
+class Record:
+    """An instance of a repo class: its fields / instance attributes (NamedTuple, dataclass, or a class with a plain __init__)."""
+
+    ci: ClassInfo
+    fields: dict
+    frozen: bool = False
+    is_tuple: bool = False
+
+
+@dataclass(frozen=True, eq=False)
+class BoundMethod:
+    fi: FuncInfo
+    recv: object  # Record | ClassRef
+
+
+_FUNCS = (FuncRef, LibRef, Bound, Closure, ClassRef, BoundMethod)
+
+
 class _Return(Exception):
     def __init__(self, value) -> None:
         self.value = value
@@ -457,7 +486,7 @@ class Evaluator:
         self._const_cache: dict = {}
 
     # ------------------------------------------------------------------ calls
-    def call(self, fi: FuncInfo, args: list, kwargs: dict | None = None, node=None):
+    def call(self, fi: FuncInfo, args: list, kwargs: dict | None = None, node=None, bound: bool = False):
         kwargs = kwargs or {}
         if isinstance(fi.node, ast.Lambda):
             env = self._bind(fi, args, kwargs, node)
@@ -469,7 +498,7 @@ class Evaluator:
         if self.depth > 12:
             raise Unsupported(node, "call depth")
         try:
-            env = self._bind(fi, args, kwargs, node)
+            env = self._bind(fi, args, kwargs, node, bound)
             try:
                 self.block(fi.node.body, env, fi)
             except _Return as r:
@@ -478,12 +507,12 @@ class Evaluator:
         finally:
             self.depth -= 1
 
-    def _bind(self, fi: FuncInfo, args: list, kwargs: dict, node) -> dict:
+    def _bind(self, fi: FuncInfo, args: list, kwargs: dict, node, bound: bool = False) -> dict:
         a = fi.node.args
         if a.vararg or a.kwarg:
             raise Unsupported(node, "*args / **kwargs")
         pos = [p.arg for p in [*a.posonlyargs, *a.args]]
-        if fi.cls is not None and fi.outer is None and not fi.is_staticmethod and not isinstance(fi.node, ast.Lambda):
+        if fi.cls is not None and fi.outer is None and not fi.is_staticmethod and not isinstance(fi.node, ast.Lambda) and not bound:
             raise Unsupported(node, f"method call {fi.qualname}")
         if len(args) > len(pos):
             raise Raised("TypeError", node)
@@ -601,12 +630,21 @@ class Evaluator:
                     raise Raised(type(e).__name__, t) from None
             else:
                 raise Unsupported(t, "item assignment")
+        elif isinstance(t, ast.Attribute):
+            box = self.eval(t.value, env, fi)
+            if not isinstance(box, Record):
+                raise Unsupported(t, "attribute assignment")
+            if box.frozen:
+                raise Raised("AttributeError", t)
+            box.fields[t.attr] = v
         else:
             raise Unsupported(t, "assignment target")
 
     def iterate(self, v, node):
         if isinstance(v, (list, tuple, range, str, set, frozenset, dict)):
             return list(v)
+        if isinstance(v, Record) and v.is_tuple:
+            return list(v.fields.values())
         if isinstance(v, (SymStr, SymInt)):
             raise Unknown(node, "iteration over a symbolic value")
         if hasattr(v, "__iter__") and type(v).__name__ in ("map", "filter", "zip", "enumerate", "reversed", "list_iterator", "generator", "tuple_iterator", "str_ascii_iterator", "str_iterator", "range_iterator", "list_reverseiterator"):
@@ -626,7 +664,13 @@ class Evaluator:
             if hi is not None and hi < 0:
                 return True
             raise Unknown(node, "truthiness of a symbolic length")
-        if isinstance(v, (FuncRef, LibRef, Bound, Closure)):
+        if isinstance(v, _FUNCS):
+            return True
+        if isinstance(v, Record):
+            if v.is_tuple:
+                return bool(v.fields)
+            if any(self.repo.lookup_method(v.ci, m) is not None for m in ("__bool__", "__len__")):
+                raise Unsupported(node, f"truthiness of a {v.ci.name}")
             return True
         return bool(v)
 
@@ -638,6 +682,8 @@ class Evaluator:
     def module_name(self, mod: ModuleInfo, name: str, node):
         if name in mod.functions:
             return FuncRef(mod.functions[name])
+        if name in mod.classes:
+            return ClassRef(mod.classes[name])
         if name in mod.constants:
             key = (mod.name, name)
             if key not in self._const_cache:
@@ -702,7 +748,7 @@ class Evaluator:
             return v
         if isinstance(v, SymInt):
             raise Unknown(node, "text of a symbolic length")
-        if isinstance(v, (FuncRef, LibRef, Bound, Closure)):
+        if isinstance(v, _FUNCS):
             raise Unsupported(node, "str() of a function")
         return str(v)
 
@@ -911,8 +957,14 @@ class Evaluator:
                 raise Unknown(e, "symbolic bound on a known text")
             return box[lo:up:st]
         idx = self.eval(e.slice, env, fi)
+        if isinstance(box, Record):
+            if not box.is_tuple or not isinstance(idx, int):
+                raise Unsupported(e, f"subscript of a {box.ci.name}")
+            return list(box.fields.values())[idx]
+        if isinstance(idx, bool):
+            idx = int(idx)
         if isinstance(box, SymStr):
-            if isinstance(idx, int) and not isinstance(idx, bool):
+            if isinstance(idx, int):
                 ps = box.pieces
                 if idx >= 0 and ps[0][0] == "lit" and idx < len(ps[0][1]):
                     return ps[0][1][idx]
@@ -925,7 +977,7 @@ class Evaluator:
             raise Unknown(e, "a single character of the opaque text")
         if isinstance(idx, (SymInt, SymStr)):
             raise Unknown(e, "symbolic index")
-        if isinstance(box, (FuncRef, LibRef, Bound, Closure)):
+        if isinstance(box, _FUNCS):
             raise Unsupported(e, "subscript of a function")
         return box[idx]
 
@@ -941,6 +993,8 @@ class Evaluator:
             return LibRef(base.name + "." + e.attr)
         if is_strlike(base) and e.attr in STR_METHODS:
             return Bound(base, e.attr)
+        if isinstance(base, (Record, ClassRef)):
+            return self.member(base, e.attr, e)
         if isinstance(base, (re.Match, re.Pattern)):
             if e.attr in RE_OBJECT_METHODS:
                 return Bound(base, e.attr)
@@ -949,6 +1003,66 @@ class Evaluator:
         if isinstance(base, (list, dict, set, tuple)) and e.attr in ("append", "extend", "insert", "pop", "get", "items", "keys", "values", "add", "index", "count", "reverse", "sort", "copy", "update", "setdefault"):
             return Bound(base, e.attr)
         raise Unsupported(e, f"attribute .{e.attr}")
+
+    def member(self, base, name: str, node):
+        """`obj.name` / `Cls.name` for a repo class: field, class constant, property, bound / class / static method."""
+        ci = base.ci
+        if isinstance(base, Record) and name in base.fields:
+            return base.fields[name]
+        m = self.repo.lookup_method(ci, name)
+        if m is not None:
+            if [d for d in m.decorators if d not in ("staticmethod", "classmethod", "property")]:
+                raise Unsupported(node, f"decorated method {m.qualname}")
+            if m.is_staticmethod:
+                return FuncRef(m)
+            if m.is_classmethod:
+                return BoundMethod(m, ClassRef(ci))
+            if isinstance(base, ClassRef):
+                raise Unsupported(node, f"unbound method {m.qualname}")
+            if m.is_property:
+                return self.call(m, [base], {}, node, bound=True)
+            return BoundMethod(m, base)
+        owner = ci
+        seen = 0
+        while owner is not None and seen < 8:
+            seen += 1
+            if name in owner.class_attrs:
+                holder = FuncInfo(name="<class>", qualname="<class>", node=ast.Lambda(args=ast.arguments(posonlyargs=[], args=[], kwonlyargs=[], kw_defaults=[], defaults=[]), body=owner.class_attrs[name]), module=owner.module)
+                return self.eval(owner.class_attrs[name], {}, holder)
+            owner = next((self.repo.classes[b] for b in owner.bases if b in self.repo.classes), None)
+        raise Unsupported(node, f"attribute .{name} of {ci.name}")
+
+    def construct(self, ci: ClassInfo, args: list, kwargs: dict, node):
+        is_nt = any(b.rsplit(".", 1)[-1] == "NamedTuple" for b in ci.bases)
+        if any(b in self.repo.classes for b in ci.bases) or len([b for b in ci.bases if b.rsplit(".", 1)[-1] not in ("NamedTuple", "object")]) > 0:
+            raise Unsupported(node, f"construction of {ci.name} (base classes)")
+        if any(self.repo.lookup_method(ci, m) is not None for m in ("__new__", "__post_init__", "__getattr__", "__getattribute__", "__setattr__")):
+            raise Unsupported(node, f"construction of {ci.name} (special methods)")
+        init = self.repo.lookup_method(ci, "__init__")
+        if is_nt or (ci.is_dataclass and init is None):
+            names = list(ci.ann_attrs)
+            if len(args) > len(names):
+                raise Raised("TypeError", node)
+            fields = dict(zip(names, args))
+            for k, v in kwargs.items():
+                if k not in names or k in fields:
+                    raise Raised("TypeError", node)
+                fields[k] = v
+            for n in names:
+                if n not in fields:
+                    if n not in ci.class_attrs:
+                        raise Raised("TypeError", node)
+                    holder = FuncInfo(name="<class>", qualname="<class>", node=ast.Lambda(args=ast.arguments(posonlyargs=[], args=[], kwonlyargs=[], kw_defaults=[], defaults=[]), body=ci.class_attrs[n]), module=ci.module)
+                    fields[n] = self.eval(ci.class_attrs[n], {}, holder)
+            return Record(ci, {n: fields[n] for n in names}, frozen=is_nt, is_tuple=is_nt)
+        if ci.decorators and not ci.is_dataclass:
+            raise Unsupported(node, f"construction of the decorated class {ci.name}")
+        rec = Record(ci, {})
+        if init is not None:
+            self.call(init, [rec, *args], kwargs, node, bound=True)
+        elif args or kwargs:
+            raise Raised("TypeError", node)
+        return rec
 
     def e_Lambda(self, e, env, fi):
         a = e.args
@@ -1014,6 +1128,10 @@ class Evaluator:
             return self.method(f.recv, f.name, args, kwargs, node)
         if isinstance(f, LibRef):
             return self.lib(f.name, args, kwargs, node)
+        if isinstance(f, BoundMethod):
+            return self.call(f.fi, [f.recv, *args], kwargs, node, bound=True)
+        if isinstance(f, ClassRef):
+            return self.construct(f.ci, args, kwargs, node)
         if isinstance(f, Closure):
             names = [p.arg for p in [*f.node.args.posonlyargs, *f.node.args.args]]
             if kwargs or len(args) != len(names):
@@ -1060,7 +1178,7 @@ class Evaluator:
                 return best
             if self._sym_args(args, kwargs):
                 raise Unknown(node, f"{b}() on a symbolic value")
-            if any(isinstance(a, (FuncRef, LibRef, Bound, Closure)) for a in args):
+            if any(isinstance(a, _FUNCS) for a in args):
                 raise Unsupported(node, f"{b}() with a function argument")
             return SAFE_BUILTINS[b](*args, **kwargs)
         if name == "re.escape" and len(args) == 1 and not kwargs:
@@ -1070,7 +1188,7 @@ class Evaluator:
         if name.startswith("re.") and name[3:] in SAFE_RE:
             if self._sym_args(args, kwargs):
                 raise Unknown(node, f"{name}() on a symbolic text")
-            if any(isinstance(a, (FuncRef, LibRef, Bound, Closure)) for a in args):
+            if any(isinstance(a, _FUNCS) for a in args):
                 raise Unsupported(node, f"{name}() with a function argument")
             return SAFE_RE[name[3:]](*args, **kwargs)
         if name in ("str.join",) and len(args) == 2:
@@ -1081,7 +1199,7 @@ class Evaluator:
         if isinstance(recv, (re.Match, re.Pattern)):
             if self._sym_args(args, kwargs):
                 raise Unknown(node, f"regex .{name}() on a symbolic text")
-            if any(isinstance(a, (FuncRef, LibRef, Bound, Closure)) for a in args):
+            if any(isinstance(a, _FUNCS) for a in args):
                 raise Unsupported(node, f"regex .{name}() with a function argument")
             return getattr(recv, name)(*args, **kwargs)
         if isinstance(recv, (list, dict, set, tuple)):
